@@ -43,3 +43,20 @@ REGISTRY = {
                        "the error-detection corollaries are finite bit-vector lemmas over step8 plus the stated induction schema.",
     },
 }
+
+_SM_NOTE = ("Assumed: the state table is well formed (postcondition of _build_states); user state functions touch framework state only "
+            "through the public API and respect usage assumptions CB-K1/CB-A1 (= known findings F3/F4, carved out); overriding done() calls "
+            "super().done(); clocks monotone, 0 <= t < 2**32-1 s; durations >= 0; floats as reals; the getattr/tunable read of a duration is an "
+            "assumed external; eval-generated argument adapter: see C03 template obligation.")
+for _pid, _txt in {
+    "C01": "Site assertions A1/S1 at the only state-function call site of execute(), postconditions X0/X1 of execute() and 'only engage() raises the request flag' on every method, "
+           "proved for an arbitrary well-formed machine from any state satisfying the object invariant (proved inductive over all public methods and callbacks, both receivers).",
+    "C02": "Site assertions B2-B5, T4 at the state-function call site: the current state runs until tm exceeds start+duration, hands over at the expiry instant "
+           "(successor start_time == predecessor expiry; cycle-back moves the clock origin by exactly the expiry), for arbitrary clocks and duration values.",
+    "C03": "Site assertions A4-A8 (tm, state_tm, initial_call values and their monotonicity between consecutive calls) at the call site, plus a structural/template "
+           "obligation on the generated argument adapter in _State.__init__.",
+    "C04": "Postconditions of done()/on_disable()/engage()/execute() (stopped <=> state None, is_executing False, current_state ''), site assertions A2/A3/A5 and the invariants I_cs/I_en.",
+    "C13": "Contracts of AutonomousStateMachine.on_enable/on_iteration/done and of every inherited method re-verified for the AutonomousStateMachine receiver: the latch invariant AI1, "
+           "L1 (latched off => nothing runs or changes), N1 (never cycles), X5.",
+}.items():
+    REGISTRY[_pid] = {"modules": ["sm"], "level": "proof", "level_text": _txt, "level_note": _SM_NOTE, "design_ref": f"DESIGN.md section 5 {_pid}"}
